@@ -319,11 +319,23 @@ impl Cred {
             self.v(ctx, M_C07 | M_C13, "c07:username", format!("{} USERNAME attribute(s); value must be the configured user name", names.len()), wit());
         }
         let (mi, sha) = (raw.count(wire::T_MESSAGE_INTEGRITY), raw.count(wire::T_MESSAGE_INTEGRITY_SHA256));
+        // What the statement demands: integrity that verifies (every integrity attribute present
+        // is verified by the tail monitor above), i.e. at least one; once an algorithm is agreed,
+        // that one.  That both are sent while none is agreed, and only the agreed one afterwards,
+        // is what RFC 8489 9.1.2 and today's code do, but not what C07 states: counted, not judged.
         let ok = match self.agreed {
+            None => mi + sha >= 1 && mi <= 1 && sha <= 1,
+            Some(false) => mi == 1 && sha <= 1,
+            Some(true) => sha == 1 && mi <= 1,
+        };
+        let rfc_form = match self.agreed {
             None => mi == 1 && sha == 1,
             Some(false) => mi == 1 && sha == 0,
             Some(true) => mi == 0 && sha == 1,
         };
+        if !rfc_form {
+            ctx.count("c07.suspicion.integrity-set-not-rfc-9.1.2");
+        }
         if !ok {
             // also C13's business: "then the credential attributes the mechanism requires"
             self.v(
